@@ -26,7 +26,7 @@ VAL = {
  "clist": lambda f: people if f in ("Uploaders",) else seq([b("pkg"), b("libpkg1"), b("pkg-doc")]),
  "slist": lambda f: seq([b("pkg"), b("libpkg1"), b("pkg-doc")]) if f == "Binary" else seq([b("783746"), b("12345"), b("999")]),
  "cslist": lambda f: seq([b("role::program"), b("interface::commandline"), b("uitoolkit::ncurses")]),
- "mstring": lambda f: seq([b("pkg (1.0-1) unstable; urgency=low"), b(""), b("  * Initial release.")]) if f == "Changes" else seq([b("short description"), b("long text"), b(""), b("more text")]),
+ "mstring": lambda f: seq([b("pkg (1.0-1) unstable; urgency=low"), b(""), b("  * Initial release, closes"), b("    #805204.")]) if f == "Changes" else seq([b("short description"), b("long text"), b(""), b("# not a comment: a line of the text"), b("more text")]),
  "sums:md5": lambda f: sums("md5"), "sums:sha1": lambda f: sums("sha1"), "sums:sha256": lambda f: sums("sha256"),
  "chfiles": lambda f: chfiles,
 }
